@@ -201,4 +201,11 @@ def autoCorrect (c : SelfAttested) (requester uuid : String) (now : Time) : Self
   let c3 := if c2.issued == zeroTime then { c2 with issued := now - now % 1000 } else c2
   if c3.nSubjects == some 1 && !c3.subject0HasId then { c3 with subject0HasId := true, subject0Id := some requester } else c3
 
+/-! ## crypto/jwx.AlgorithmFitsKey driven by the table regenerated from its `switch curve` (tie for `algorithmFitsKey`) -/
+
+def algorithmFitsKeyT (table : List (String × String)) (alg kind : String) : Bool :=
+  match table.find? (fun p => p.1 == kind) with
+  | some p => alg == p.2
+  | none => if kind == "Ed25519" then alg == "EdDSA" else true
+
 end Nuts.C01
